@@ -92,21 +92,22 @@ func snap(s *fsess.Session) view {
 	v.ID = s.ID()
 	v.Fresh = s.Fresh()
 	for _, k := range s.Keys() {
-		ks, ok := k.(string)
+		val := s.Get(k)
+		ks, ok := tokenOf(k)
 		if !ok {
-			if t, ok := s.Get(k).(time.Time); ok {
+			// a key type of the library itself: its bookkeeping (absolute expiration)
+			if t, ok := val.(time.Time); ok {
 				v.Abs = t
 			} else {
 				v.Odd = append(v.Odd, fmt.Sprintf("key %T", k))
 			}
 			continue
 		}
-		val := s.Get(k)
 		if vs, ok := val.(string); ok {
 			v.Data[ks] = vs
 		} else {
-			v.Data[ks] = fmt.Sprintf("%T:%v", val, val)
-			v.Odd = append(v.Odd, "value of "+ks)
+			v.Data[ks] = fmt.Sprintf("%T", val)
+			v.Odd = append(v.Odd, fmt.Sprintf("key %s holds a %T no handler stored", ks, val))
 		}
 	}
 	return v
@@ -200,29 +201,29 @@ func execOps(c fiber.Ctx, st *fsess.Store, m *fsess.Middleware, psess **fsess.Se
 		case "get":
 			var v any
 			if m != nil {
-				v = m.Get(o.Key)
+				v = m.Get(keyOf(o.Key))
 			} else {
-				v = sess.Get(o.Key)
+				v = sess.Get(keyOf(o.Key))
 			}
 			if v != nil {
 				r.GotOK = true
 				if s, ok := v.(string); ok {
 					r.Got = s
 				} else {
-					r.Got = fmt.Sprintf("%T:%v", v, v)
+					r.Got = fmt.Sprintf("%T", v) // not a value any handler stored
 				}
 			}
 		case "set":
 			if m != nil {
-				m.Set(o.Key, o.Val)
+				m.Set(keyOf(o.Key), o.Val)
 			} else {
-				sess.Set(o.Key, o.Val)
+				sess.Set(keyOf(o.Key), o.Val)
 			}
 		case "del":
 			if m != nil {
-				m.Delete(o.Key)
+				m.Delete(keyOf(o.Key))
 			} else {
-				sess.Delete(o.Key)
+				sess.Delete(keyOf(o.Key))
 			}
 		case "idle":
 			sess.SetIdleTimeout(o.Dur)
@@ -287,7 +288,7 @@ func execOps(c fiber.Ctx, st *fsess.Store, m *fsess.Middleware, psess **fsess.Se
 				v := snap(s)
 				r.ByID = &v
 				if o.Set {
-					s.Set(o.Key, o.Val)
+					s.Set(keyOf(o.Key), o.Val)
 				}
 				if o.Save {
 					if err := s.Save(); err != nil {
